@@ -178,7 +178,7 @@ def shard(arg):
 def run(ctx):
     q = ctx.quick
     args = []
-    per = {2: 40, 3: 60, 4: 60, 5: 40, 6: 30} if q else {2: 300, 3: 600, 4: 600, 5: 400, 6: 300}
+    per = {2: 40, 3: 60, 4: 60, 5: 40, 6: 30} if q else {2: 1000, 3: 2400, 4: 2400, 5: 1600, 6: 1200}
     for ci, (n, name) in enumerate(coupling.CONFIGS):
         parts = 1 if q else 4
         for part in range(parts):
@@ -188,7 +188,7 @@ def run(ctx):
             args.append(("enum", n, chunk, ctx.seed))
     for n in (4, 5, 6):
         for chunk in fw.split(members.orbit_reps(n), {4: 1, 5: 6, 6: 64}[n]):
-            args.append(("classes", n, chunk, 1 if q else 3, ctx.seed, ctx.deadline))
+            args.append(("classes", n, chunk, 1 if q else 8, ctx.seed, ctx.deadline))
     args.sort(key=lambda a: 0 if (a[0] == "classes" and a[1] == 6) else 1)
     rep = fw.run_shards(ctx, "props.c12", "shard", args)
     rep.extra["exhaustive"] = False
